@@ -814,24 +814,22 @@ ElemNumber::getMatchingAncestors(
         countMatchPattern = xpathGuard.get();
     }
 
+    const XalanNode* const  theCurrentNode = node;
+
     while (0 != node)
     {
-        if (0 != m_fromMatchPattern &&
+        // For level="single" and level="multiple", the only ancestors
+        // that are searched are those that are descendants of the nearest
+        // ancestor that matches the from pattern.  The current node is
+        // not one of its ancestors.
+        if (node != theCurrentNode &&
+            0 != m_fromMatchPattern &&
             m_fromMatchPattern->getMatchScore(
                 node,
                 *this,
                 executionContext) != XPath::eMatchScoreNone)
         {
-            // The following if statement gives level="single" different 
-            // behavior from level="multiple", which seems incorrect according 
-            // to the XSLT spec.  For now we are leaving this in to replicate 
-            // the same behavior in XT, but, for all intents and purposes we 
-            // think this is a bug, or there is something about level="single" 
-            // that we still don't understand.
-            if(!stopAtFirstFound)
-            {
-                break;
-            }
+            break;
         }
 
         assert(0 != countMatchPattern);
